@@ -201,10 +201,17 @@ def gen_threshold(rng, measure, prof):
         return float(decimal_threshold(rng))
     if x < 0.78:
         return float(frac_threshold(rng))
-    if x < 0.9:
+    if x < 0.86:
         # an attainable fraction written with 4 decimals (rounded up or down)
         q = rng.choice([3, 6, 7, 9, 11, 12, 13])
         return round(rng.randint(1, q) / float(q), 4)
+    if x < 0.92:
+        # ... or with 5 / 6 decimals, a hair above or below the fraction
+        q = rng.choice([3, 6, 7, 9, 11, 12, 13])
+        d = rng.choice([5, 6])
+        v = round(rng.randint(1, q) / float(q), d) + \
+            rng.choice([-1, 0, 1]) * 10.0 ** -d
+        return min(1.0, max(10.0 ** -d, round(v, d)))
     return rng.choice([1.0, 0.5, 0.0001, 0.9999, 0.3333, 0.6667])
 
 
@@ -400,6 +407,10 @@ def gen_table(g, name, big):
                                                 n)]
     elif keytype == 'int':
         keys = rng.sample(range(0, max(60, 3 * n + 5)), n)
+    elif rng.random() < 0.2:
+        # strings that look like numbers ('007'): must come back as they are
+        keys = ['%03d' % i for i in rng.sample(range(0, max(60, 3 * n + 5)),
+                                               n)]
     else:
         keys = ['%s%d' % (rng.choice(['a', 'b', 'x']), i)
                 for i in rng.sample(range(0, max(60, 3 * n + 5)), n)]
@@ -1132,6 +1143,8 @@ def gen_candset_spec(g, l, r, c_l, c_r, size_hint=None):
             spec[col] = 'int64'
         else:
             spec[col] = rng.choice(['object', 'str'])
+    if rng.random() < 0.1:
+        spec['no_id'] = True      # a hand-made candidate set without _id
     name = 'S%d' % len(g.candsets)
     g.case['candsets'][name] = spec
     g.candsets.append(name)
@@ -1230,7 +1243,7 @@ def gen_apply_matcher(g):
     else:
         tok, tspec = pick_tok(g)
         measure = rng.choice(['JACCARD', 'COSINE', 'DICE',
-                              'OVERLAP_COEFFICIENT', 'OVERLAP'])
+                              'OVERLAP_COEFFICIENT', 'OVERLAP', 'CONTAINMENT'])
         la, ra = attrs_for_tok(g, tok, l, r)
         thr = gen_threshold(rng, measure, g.prof)
         comp = rng.choice(['>=', '>=', '>', '=', '<=', '<', '!='])
@@ -1266,6 +1279,8 @@ def gen_pipeline(g):
         thr = rng.choice([0, 1, 1, 2, 2, 3])
         comp = rng.choice(['<=', '<=', '<', '='])
         fkind = rng.choice(['SizeFilter', 'PrefixFilter', 'PositionFilter'])
+        if rng.random() < max(prof['tight'], 0.3):
+            ed_tight_scenario(g, l, r, thr)
         fspec = {'kind': fkind, 'tokenizer': tok, 'measure': 'EDIT_DISTANCE',
                  'threshold': thr, 'allow_empty': True, 'allow_missing': am}
         ae = True
